@@ -48,6 +48,9 @@ namespace pgm {
 /** Computes the number of bits needed to store x, that is, 0 if x is 0, 1 + floor(log2(x)) otherwise. */
 #define BIT_WIDTH(x) ((x) == 0 ? 0 : 64 - __builtin_clzll(x))
 
+/** Offsets from a segment's intercept are saturated to this value before the (otherwise undefined) conversion to int64_t. */
+constexpr double max_offset = double(int64_t(1) << 62);
+
 /**
  * A variant of @ref PGMIndex that does not build a recursive structure but uses a binary search on the segments.
  *
@@ -184,7 +187,7 @@ public:
             return {pos, lo, hi};
         }
 
-        auto p = int64_t(root_slope * (k - first_key)) + root_intercept;
+        auto p = int64_t(std::min<double>(root_slope * (k - first_key), max_offset)) + root_intercept;
         auto pos = std::min<size_t>(p > 0 ? size_t(p) : 0ull, root_range);
 
         for (const auto &level : levels) {
@@ -330,7 +333,7 @@ struct CompressedPGMIndex<K, Epsilon, EpsilonRecursive, Floating>::CompressedLev
     }
 
     inline size_t operator()(const std::vector<Floating> &slopes, size_t i, K k) const {
-        auto pos = int64_t(get_slope(slopes, i) * (k - keys[i])) + get_intercept(i);
+        auto pos = int64_t(std::min<double>(get_slope(slopes, i) * (k - keys[i]), max_offset)) + get_intercept(i);
         return pos > 0 ? size_t(pos) : 0ull;
     }
 
@@ -526,7 +529,7 @@ protected:
         SegmentData(Segment &s) : slope(s.slope), intercept(s.intercept) {}
 
         inline size_t operator()(const K &origin, const K &k) const {
-            auto pos = int64_t(slope * (k - origin)) + intercept;
+            auto pos = int64_t(std::min<double>(slope * (k - origin), max_offset)) + intercept;
             return pos > 0 ? size_t(pos) : 0ull;
         }
     };
